@@ -33,6 +33,12 @@ package pogreb
 //@   ensures [C16] value: err == nil ==> sameBytes(fData[fidOf[dl.curSeg.file.File]], int(off)+6+len(key), contents(value), off(value), len(value))
 //@   ensures kept: forall i int :: 0 <= i && i < 32767 && old(dl.segments[i]) != nil ==> dl.segments[i] == old(dl.segments[i])
 //@   ensures [C03] appendonly: err == nil ==> forall h ref :: old(hOpen[h]) ==> hOpen[h] && fidOf[h] == old(fidOf[h]) && fLen[fidOf[h]] >= old(fLen[fidOf[h]]) && (fidOf[h] != fidOf[dl.curSeg.file.File] ==> fLen[fidOf[h]] == old(fLen[fidOf[h]]) && fData[fidOf[h]] == old(fData[fidOf[h]]) && (fDur[fidOf[h]] == old(fDur[fidOf[h]]) || fDur[fidOf[h]] == fLen[fidOf[h]]))
+//@   ensures new: forall i int :: 0 <= i && i < 32767 && old(dl.segments[i]) == nil && dl.segments[i] != nil ==> dl.segments[i] == dl.curSeg && dl.curSeg != old(dl.curSeg)
+//@   ensures newfid: err == nil ==> (dl.curSeg == old(dl.curSeg) && old(dl.segments[dl.curSeg.id] == dl.curSeg)) || fresh(dl.curSeg.file) && forall h ref :: old(hOpen[h]) ==> h != ref(dl.curSeg.file.File) && fidOf[h] != fidOf[dl.curSeg.file.File]
+//@   ensures [C03] sealed-untouched: err == nil ==> forall i int :: 0 <= i && i < 32767 && old(dl.segments[i]) != nil && old(dl.segments[i].meta.Full) ==> dl.segments[i].file.size == old(dl.segments[i].file.size) && fLen[fidOf[dl.segments[i].file.File]] == old(fLen[fidOf[dl.segments[i].file.File]]) && fData[fidOf[dl.segments[i].file.File]] == old(fData[fidOf[dl.segments[i].file.File]])
+//@   ensures sizes: forall f *file :: f != dl.curSeg.file && !fresh(f) ==> f.size == old(f.size) && f.File == old(f.File)
+//@   ensures positions: forall h ref :: old(hOpen[h]) ==> hPos[h] == old(hPos[h])
+//@   ensures errs: err != ErrIterationDone
 //@   flag lossless
 //@   modifies dl.curSeg, dl.segments, dl.maxSequenceID, any(segmentMeta).Full, any(segmentMeta).PutRecords, any(segmentMeta).DeleteRecords, any(file).size, dirFid[dl.opts.FileSystem], fLen, fDur, fData, hOpen, hPos, fidOf, fidName
 
@@ -44,12 +50,17 @@ package pogreb
 //@   ensures [C06] sealed: err == nil ==> dlSealedDurable(dl)
 //@   ensures kept: forall i int :: 0 <= i && i < 32767 && old(dl.segments[i]) != nil ==> dl.segments[i] == old(dl.segments[i])
 //@   ensures [C03] appendonly: err == nil ==> forall h ref :: old(hOpen[h]) ==> hOpen[h] && fidOf[h] == old(fidOf[h]) && fLen[fidOf[h]] >= old(fLen[fidOf[h]]) && (fidOf[h] != fidOf[dl.curSeg.file.File] ==> fLen[fidOf[h]] == old(fLen[fidOf[h]]) && fData[fidOf[h]] == old(fData[fidOf[h]]) && (fDur[fidOf[h]] == old(fDur[fidOf[h]]) || fDur[fidOf[h]] == fLen[fidOf[h]]))
+//@   ensures new: forall i int :: 0 <= i && i < 32767 && old(dl.segments[i]) == nil && dl.segments[i] != nil ==> dl.segments[i] == dl.curSeg && dl.curSeg != old(dl.curSeg)
+//@   ensures newfid: err == nil ==> (dl.curSeg == old(dl.curSeg) && old(dl.segments[dl.curSeg.id] == dl.curSeg)) || fresh(dl.curSeg.file) && forall h ref :: old(hOpen[h]) ==> h != ref(dl.curSeg.file.File) && fidOf[h] != fidOf[dl.curSeg.file.File]
+//@   ensures [C03] sealed-untouched: err == nil ==> forall i int :: 0 <= i && i < 32767 && old(dl.segments[i]) != nil && old(dl.segments[i].meta.Full) ==> dl.segments[i].file.size == old(dl.segments[i].file.size) && fLen[fidOf[dl.segments[i].file.File]] == old(fLen[fidOf[dl.segments[i].file.File]]) && fData[fidOf[dl.segments[i].file.File]] == old(fData[fidOf[dl.segments[i].file.File]])
+//@   ensures sizes: forall f *file :: f != dl.curSeg.file && !fresh(f) ==> f.size == old(f.size) && f.File == old(f.File)
+//@   ensures positions: forall h ref :: old(hOpen[h]) ==> hPos[h] == old(hPos[h])
+//@   ensures errs: err != ErrIterationDone
 //@   flag lossless
 //@   modifies dl.curSeg, dl.segments, dl.maxSequenceID, any(segmentMeta).Full, any(segmentMeta).PutRecords, any(segmentMeta).DeleteRecords, any(segmentMeta).DeletedBytes, any(file).size, dirFid[dl.opts.FileSystem], fLen, fDur, fData, hOpen, hPos, fidOf, fidName
 
-// The two index-update helpers pass a closure to the index; until closures passed as arguments are
-// supported their contracts are ASSUMED (listed as trusted): they change only the index and the
-// deletion counters of segment metas, and db.del appends at most one delete record.
+// DB.put passes a function literal to index.put, which is not under contract yet: its contract is ASSUMED
+// (listed as trusted): it changes only the index and the deletion counters of segment metas.
 //@ func (db *DB) put(sl slot, key []byte) (err error) [C01,C03,C06,C16]
 //@   trusted closure passed to index.put: body not verified
 //@   requires inv: dbInv(db)
@@ -57,14 +68,6 @@ package pogreb
 //@   ensures inv: dbInv(db)
 //@   ensures log: segmentsUntouched(db.datalog)
 //@   modifies any(index).freeBucketOffs, any(index).level, any(index).numKeys, any(index).numBuckets, any(index).splitBucketIdx, any(segmentMeta).DeletedKeys, any(segmentMeta).DeletedBytes, any(file).size, fLen, fDur, fData
-
-//@ func (db *DB) del(h uint32, key []byte, writeWAL bool) (err error) [C01,C03,C06,C16]
-//@   trusted closure passed to index.delete: body not verified
-//@   requires inv: dbInv(db)
-//@   ensures inv: err == nil ==> dbInv(db)
-//@   ensures nowal: !writeWAL ==> dbInv(db) && segmentsUntouched(db.datalog)
-//@   ensures kept: forall i int :: 0 <= i && i < 32767 && old(db.datalog.segments[i]) != nil ==> db.datalog.segments[i] == old(db.datalog.segments[i])
-//@   modifies any(index).freeBucketOffs, any(index).level, any(index).numKeys, any(index).numBuckets, any(index).splitBucketIdx, any(datalog).curSeg, any(datalog).segments, any(datalog).maxSequenceID, any(segmentMeta).Full, any(segmentMeta).PutRecords, any(segmentMeta).DeleteRecords, any(segmentMeta).DeletedKeys, any(segmentMeta).DeletedBytes, any(file).size, dirFid[db.opts.FileSystem], fLen, fDur, fData, hOpen, hPos, fidOf, fidName
 
 //@ func (db *DB) sync() (err error) [C06,C15]
 //@   requires inv: dbInv(db)
@@ -94,8 +97,8 @@ package pogreb
 //@   flag lossless
 //@   modifies *
 
-//@ func (db *DB) Delete(key []byte) (err error) [C03,C06]
-//@   requires inv: dbInv(db)
+//@ func (db *DB) Delete(key []byte) (err error) [C01,C03,C06,C16]
+//@   requires inv: db == theDB() && key == theKey() && dbFull(db) && idxInLog(db)
 //@   requires unlocked: lockSt[fieldaddr(db, mu)] == 0
 //@   ensures [C06] synced: err == nil && db.syncWrites ==> dlAllDurable(db.datalog)
 //@   ensures inv: err == nil ==> dbInv(db)
